@@ -67,11 +67,12 @@ MAXVIOL = 3                  # violation records kept per check per case
 # --------------------------------------------------------------------------
 # structures and their sites
 # --------------------------------------------------------------------------
-#   tree: ("S", nlayers) | ("Spheres", [...]) | ("Scatterers", [...]) |
-#         ("Rigid", [...])
+#   tree: ("S", nlayers[, "tuple"]) | ("Spheres", [...]) |
+#         ("Scatterers", [...]) | ("Rigid", [...]);  "tuple": the centre is
+#         given as a tuple instead of a list
 STRUCTS = {
     "sphere": {"tree": ("S", 0), "theory": "aberrated", "model": "alpha"},
-    "sphere-exact": {"tree": ("S", 0), "theory": "mielens",
+    "sphere-exact": {"tree": ("S", 0, "tuple"), "theory": "mielens",
                      "model": "exact"},
     "layered": {"tree": ("S", 2), "theory": "mie", "model": "alpha"},
     "spheres1": {"tree": ("Spheres", [("S", 0)]), "theory": "mie",
@@ -415,9 +416,8 @@ def _mk_tree(tree, prefix, val):
         else:
             n = [val(prefix + "n.%d" % j) for j in range(nl)]
             r = [val(prefix + "r.%d" % j) for j in range(nl)]
-        return Sphere(n=n, r=r,
-                      center=[val(prefix + "center.%d" % j)
-                              for j in range(3)])
+        c = [val(prefix + "center.%d" % j) for j in range(3)]
+        return Sphere(n=n, r=r, center=tuple(c) if "tuple" in tree else c)
     members = [_mk_tree(sub, prefix + "%d:" % i, val)
                for i, sub in enumerate(tree[1])]
     if kind == "Spheres":
@@ -668,6 +668,20 @@ def _rigid_expected_centers(exp, nmem):
     return com + (C - com) @ euler_zyz(*rot).T + tr
 
 
+def _struct_expected(tree, prefix, out):
+    kind = tree[0]
+    if kind == "S":
+        out[prefix + "#type"] = "Sphere"
+        return
+    out[prefix + "#type"] = {"Spheres": "Spheres", "Rigid": "Spheres",
+                             "Scatterers": "Scatterers"}[kind]
+    out[prefix + "#members"] = len(tree[1])
+    if kind != "Scatterers":
+        out[prefix + "#warn"] = False
+    for i, sub in enumerate(tree[1]):
+        _struct_expected(sub, prefix + "%d:" % i, out)
+
+
 class Case:
     """Checker + bounded violation records"""
 
@@ -728,6 +742,17 @@ def _compare_sites(cs, b, obs, exp, tag, vec):
         cs.ok(check, _same(got, want),
               lambda: "%s [%s]: site %s holds %r, expected %r" %
               (tag, vec, s, got, want))
+    # types, member counts, flags and the theory's fixed options
+    want_struct = {}
+    _struct_expected(STRUCTS[b.prog["s"]]["tree"], "", want_struct)
+    want_struct["#theory"] = type(b.theory).__name__
+    for k, v in b.theory_fixed.items():
+        want_struct["#theory." + k] = v
+    badk = [(k, obs.get(k), v) for k, v in want_struct.items()
+            if not _same(obs.get(k), v)]
+    cs.ok("structure", not badk,
+          lambda: "%s [%s]: result has a different structure / fixed "
+          "options: %r" % (tag, vec, badk[:4]))
     if "#illum_wavelen.green" in obs:
         cs.ok("fixed-untouched", _same(obs["#illum_wavelen.green"], 0.52) and
               obs["#illum_polarization"] == [1, 0],
